@@ -8,8 +8,6 @@ From Coq Require Import Sorting.Sorted.
 
 (* a name that starts with a digit is scanned as a number, so a TNamed name never does *)
 Definition tok_lex (t : gtok) : Prop := match t with TNamed s => lexname s = true | _ => True end.
-(* explicit numbers below 2^31-1 (2^31-1 itself makes noteCaptureSlot saturate captop) *)
-Definition tok_small (t : gtok) : Prop := match t with TNumbered n => n < maxint32 | _ => True end.
 Definition tok_unnumbered (t : gtok) : Prop := match t with TNumbered _ => False | _ => True end.
 
 (* ---------- noteCaptureSlot ---------- *)
@@ -38,6 +36,12 @@ Qed.
 Lemma note_slot_count : forall i c,
   c_capcount (note_slot i c) = if zmem i (c_caps c) then c_capcount c else c_capcount c + 1.
 Proof. intros. unfold note_slot. destruct (zmem i (c_caps c)); reflexivity. Qed.
+
+Lemma note_slot_top : forall i c, c_captop (note_slot i c) <= Z.max (c_captop c) (i + 1).
+Proof.
+  intros. unfold note_slot. destruct (zmem i (c_caps c)); [lia|]. cbn.
+  destruct (c_captop c <=? i); [destruct (i =? maxint32)|]; lia.
+Qed.
 
 Lemma note_slot_capsinv : forall i c, capsinv c -> 0 <= i < maxint32 -> capsinv (note_slot i c).
 Proof.
@@ -79,6 +83,14 @@ Qed.
 
 (* ---------- the pre-scan invariant ---------- *)
 
+Section WithLim.
+(* [lim]: a bound on the explicit group numbers.  noteCaptureSlot saturates captop at 2^31-1
+   (parser.go:209-215), so the statements below are about patterns whose numbers stay away from it. *)
+Variable lim : Z.
+Hypothesis Hlim : lim <= maxint32.
+
+Definition tok_small (t : gtok) : Prop := match t with TNumbered n => n < lim | _ => True end.
+
 Record pinv (mco : bool) (c : cstate) : Prop := {
   pi_caps : capsinv c;
   pi_auto : 1 <= c_autocap c;
@@ -87,6 +99,7 @@ Record pinv (mco : bool) (c : cstate) : Prop := {
   pi_nodup : NoDup (c_capnamelist c);
   pi_lex : Forall (fun s => lexname s = true) (c_capnamelist c);
   pi_some : forall m, c_capnames c = Some m -> m <> [];
+  pi_topb : c_captop c <= Z.max lim (c_autocap c);
   pi_mco : mco = true ->
            (forall k, In k (c_caps c) -> k < c_autocap c)
            /\ c_capcount c = c_autocap c
@@ -114,6 +127,7 @@ Proof.
   - cbn. constructor.
   - cbn. constructor.
   - cbn. discriminate.
+  - cbn. lia.
   - intros _. cbn. split; [|split].
     + intros k [<-|[]]. lia.
     + reflexivity.
@@ -154,7 +168,7 @@ Proof.
     split; [assumption|]. split; [lia|]. split; [auto|]. split; [eauto|].
     split; [auto|]. split; [intros _ Hx; discriminate|]. split; [auto|]. auto.
   - (* new name *)
-    destruct Hinv as [Hcaps Hauto Hun Hkeys Hnd Hlex Hsome Hmco].
+    destruct Hinv as [Hcaps Hauto Hun Hkeys Hnd Hlex Hsome Htopb Hmco].
     assert (Hnk : ~ In s (c_capnamelist c)) by (rewrite <- Hkeys; now apply aget_none_keys).
     destruct mco.
     + destruct (Hmco eq_refl) as [Hlt' [Hcnt Hslots]].
@@ -183,6 +197,8 @@ Proof.
           apply Forall_app. split; [assumption|]. constructor; [assumption|constructor].
         - cbn [c_capnames]. rewrite Fn. cbn [c1 c_capnames]. intros m Hm. injection Hm as <-. intros E.
           pose proof (aget_aset_same s (c_autocap c) (names_of c)) as G. rewrite E in G. discriminate.
+        - cbn [c_captop c_autocap]. rewrite Fa. cbn [c1 c_autocap].
+          pose proof (note_slot_top (c_autocap c) c1) as T. cbn [c1 c_captop] in T. lia.
         - intros _. rewrite Hnames. cbn [c_autocap c_caps c_capcount]. rewrite Fa. cbn [c1 c_autocap].
           split; [|split].
           + intros k Hk. apply note_slot_caps in Hk. cbn [c1 c_caps] in Hk.
@@ -213,6 +229,7 @@ Proof.
         - cbn [c_capnamelist]. apply Forall_app. split; [assumption|]. constructor; [assumption|constructor].
         - cbn [c_capnames]. intros m Hm. injection Hm as <-. intros E.
           pose proof (aget_aset_same s (-1) (names_of c)) as G. rewrite E in G. discriminate.
+        - assumption.
         - discriminate. }
       split. { cbn. lia. }
       split. { cbn. auto. }
@@ -231,7 +248,7 @@ Lemma auto_slot_inv : forall mco c,
   pinv mco c' /\ c_autocap c' = c_autocap c + 1 /\ (forall k, In k (c_caps c) -> In k (c_caps c'))
   /\ names_of c' = names_of c /\ In (c_autocap c) (c_caps c').
 Proof.
-  intros mco c [Hcaps Hauto Hun Hkeys Hnd Hlex Hsome Hmco] Hlt.
+  intros mco c [Hcaps Hauto Hun Hkeys Hnd Hlex Hsome Htopb Hmco] Hlt.
   set (c1 := mkC (c_autocap c + 1) (c_caps c) (c_capcount c) (c_captop c) (c_capnames c) (c_capnamelist c)).
   cbn zeta. destruct (note_slot_fields (c_autocap c) c1) as [Fa [Fn Fl]].
   assert (Hc1 : capsinv c1) by (destruct Hcaps; constructor; auto).
@@ -247,6 +264,8 @@ Proof.
     - now rewrite Fl.
     - now rewrite Fl.
     - rewrite Fn. assumption.
+    - rewrite Fa. cbn [c1 c_autocap].
+      pose proof (note_slot_top (c_autocap c) c1) as T. cbn [c1 c_captop] in T. lia.
     - intros Hm. destruct (Hmco Hm) as [Hlt' [Hcnt Hslots]]. rewrite Hnm, Fa. cbn [c1 c_autocap].
       split; [|split].
       + intros k Hk. apply note_slot_caps in Hk. cbn [c1 c_caps] in Hk.
@@ -261,11 +280,11 @@ Proof.
 Qed.
 
 Lemma explicit_slot_inv : forall c n,
-  pinv false c -> 0 < n < maxint32 ->
+  pinv false c -> 0 < n < lim ->
   pinv false (note_slot n c) /\ c_autocap (note_slot n c) = c_autocap c
   /\ (forall k, In k (c_caps c) -> In k (c_caps (note_slot n c))) /\ names_of (note_slot n c) = names_of c.
 Proof.
-  intros c n [Hcaps Hauto Hun Hkeys Hnd Hlex Hsome Hmco] Hn.
+  intros c n [Hcaps Hauto Hun Hkeys Hnd Hlex Hsome Htopb Hmco] Hn.
   destruct (note_slot_fields n c) as [Fa [Fn Fl]].
   assert (Hnm : names_of (note_slot n c) = names_of c) by (unfold names_of; now rewrite Fn).
   split.
@@ -277,6 +296,7 @@ Proof.
     - now rewrite Fl.
     - now rewrite Fl.
     - now rewrite Fn.
+    - rewrite Fa. pose proof (note_slot_top n c) as T. lia.
     - discriminate. }
   split; [assumption|]. split; [intros k Hk; apply note_slot_caps; now right|assumption].
 Qed.
@@ -356,7 +376,7 @@ Qed.
 Lemma mco_dense : forall c, pinv true c ->
   c_caps c = zrange (c_autocap c) /\ c_captop c = c_autocap c /\ c_capcount c = c_autocap c.
 Proof.
-  intros c [Hcaps Hauto Hun _ _ _ _ Hmco]. destruct (Hmco eq_refl) as [Hlt [Hcnt _]].
+  intros c [Hcaps Hauto Hun _ _ _ _ _ Hmco]. destruct (Hmco eq_refl) as [Hlt [Hcnt _]].
   destruct Hcaps as [Hs Hz Hc Hr Ht Hm].
   split; [|split; [|assumption]].
   - apply ssorted_dense; [assumption| |].
@@ -456,7 +476,7 @@ Theorem assign_ordered_wf : forall ecma c t,
 Proof.
   intros ecma c t Hinv H.
   destruct (mco_dense c Hinv) as [Hcaps [Htop Hcnt]].
-  pose proof Hinv as [Hci Hauto Hun Hkeys Hnd Hlex Hsome Hmco].
+  pose proof Hinv as [Hci Hauto Hun Hkeys Hnd Hlex Hsome Htopb Hmco].
   destruct (Hmco eq_refl) as [_ [_ Hslots]].
   assert (Hnl : capnumlist_of c = None).
   { unfold capnumlist_of. rewrite Hcnt, Htop. now rewrite Z.ltb_irrefl. }
@@ -552,3 +572,331 @@ Proof.
       * discriminate.
       * auto.
 Qed.
+
+
+(* ================= assignNameSlots (numbers not maintained in pattern order) ================= *)
+
+(* the numbers handed to the names: each is the next number from [a] on that is not in [caps] *)
+Fixpoint chain (caps : list Z) (a : Z) (ks : list Z) : Prop :=
+  match ks with
+  | [] => True
+  | k :: ks' => a <= k /\ ~ In k caps /\ (forall n, a <= n < k -> In n caps) /\ chain caps (k + 1) ks'
+  end.
+
+Lemma chain_ext : forall caps caps' ks a,
+  (forall n, a <= n -> (In n caps <-> In n caps')) -> chain caps a ks -> chain caps' a ks.
+Proof.
+  intros caps caps' ks. induction ks as [|k ks IH]; intros a Hext H; [exact I|].
+  destruct H as [H1 [H2 [H3 H4]]]. cbn. split; [assumption|]. split; [rewrite <- Hext; assumption|].
+  split; [intros n Hn; apply Hext; [lia|auto]|]. apply IH; [|assumption]. intros n Hn. apply Hext. lia.
+Qed.
+
+Lemma chain_sorted : forall caps ks a, chain caps a ks -> ssorted ks /\ (forall k, In k ks -> a <= k /\ ~ In k caps).
+Proof.
+  intros caps ks. induction ks as [|k ks IH]; intros a H; [split; [constructor|intros k []]|].
+  destruct H as [H1 [H2 [H3 H4]]]. destruct (IH _ H4) as [Hs Hb]. split.
+  - constructor; [assumption|]. apply Forall_forall. intros x Hx. destruct (Hb _ Hx). lia.
+  - intros x [<-|Hx]; [auto|]. destruct (Hb _ Hx). split; [lia|assumption].
+Qed.
+
+Lemma next_free_bound : forall c, capsinv c ->
+  let a := next_free (S (length (c_caps c))) (c_caps c) (c_autocap c) in
+  c_autocap c <= a <= Z.max (c_autocap c) (c_captop c) /\ ~ In a (c_caps c)
+  /\ (forall n, c_autocap c <= n < a -> In n (c_caps c)).
+Proof.
+  intros c Hc a. destruct (next_free_spec (S (length (c_caps c))) (c_caps c) (c_autocap c)) as [H1 [H2 _]].
+  fold a in H1, H2. pose proof (next_free_not_in (c_caps c) (c_autocap c) (ci_sorted _ Hc)) as H3. fold a in H3.
+  split; [|split; assumption]. split; [assumption|].
+  destruct (Z.eq_dec a (c_autocap c)) as [->|Hne]; [lia|].
+  specialize (H2 (a - 1) ltac:(lia)). pose proof (ci_range _ Hc _ H2). lia.
+Qed.
+
+Lemma assign_names_spec : forall names c,
+  capsinv c -> 1 <= c_autocap c -> (forall k, 0 <= k < c_autocap c -> In k (c_caps c)) ->
+  NoDup names -> (forall s, In s names -> In s (akeys (names_of c))) ->
+  Z.max (c_autocap c) (c_captop c) + Z.of_nat (length names) < maxint32 ->
+  let c' := assign_names names c in
+  capsinv c'
+  /\ c_capnamelist c' = c_capnamelist c
+  /\ akeys (names_of c') = akeys (names_of c)
+  /\ (forall s, ~ In s names -> aget s (names_of c') = aget s (names_of c))
+  /\ (names <> [] -> c_capnames c' = Some (names_of c'))
+  /\ (names = [] -> c' = c)
+  /\ exists ks, Forall2 (fun s k => aget s (names_of c') = Some k) names ks
+        /\ chain (c_caps c) (c_autocap c) ks
+        /\ (forall k, In k (c_caps c') <-> In k (c_caps c) \/ In k ks).
+Proof.
+  induction names as [|s names IH]; intros c Hc Hauto Hun Hnd Hkeys Hb.
+  - cbn. split; [assumption|]. split; [reflexivity|]. split; [reflexivity|]. split; [reflexivity|].
+    split; [congruence|]. split; [reflexivity|].
+    exists []. split; [constructor|]. split; [exact I|]. intros k. split; [auto|intros [H|[]]; exact H].
+  - cbn [assign_names]. cbn zeta.
+    destruct (next_free_bound c Hc) as [[Ha1 Ha2] [Ha3 Ha4]].
+    set (a := next_free (S (length (c_caps c))) (c_caps c) (c_autocap c)) in *.
+    set (c1 := mkC a (c_caps c) (c_capcount c) (c_captop c) (Some (aset s a (names_of c))) (c_capnamelist c)).
+    destruct (note_slot_fields a c1) as [Fa [Fn Fl]].
+    set (c3 := mkC (a + 1) (c_caps (note_slot a c1)) (c_capcount (note_slot a c1)) (c_captop (note_slot a c1))
+                   (c_capnames (note_slot a c1)) (c_capnamelist (note_slot a c1))).
+    cbn [length] in Hb.
+    assert (Hc1 : capsinv c1) by (destruct Hc; constructor; auto).
+    assert (Hc3 : capsinv c3).
+    { pose proof (note_slot_capsinv a c1 Hc1 ltac:(lia)) as X. destruct X; constructor; auto. }
+    assert (Hn3 : names_of c3 = aset s a (names_of c)).
+    { unfold names_of, c3. cbn [c_capnames]. rewrite Fn. reflexivity. }
+    assert (Hcaps3 : forall k, In k (c_caps c3) <-> k = a \/ In k (c_caps c)).
+    { intros k. unfold c3. cbn [c_caps]. rewrite note_slot_caps. reflexivity. }
+    inversion Hnd as [|? ? Hs Hnd']; subst.
+    assert (Hskey : aget s (names_of c) <> None).
+    { intros E. apply aget_none_keys in E. apply E, Hkeys. now left. }
+    destruct (IH c3) as [I1 [I2 [I3 [I4 [I5 [I6 [ks [I7 [I8 I9]]]]]]]]]; try assumption.
+    { unfold c3. cbn [c_autocap]. lia. }
+    { intros k Hk. unfold c3 in Hk. cbn [c_autocap] in Hk. apply Hcaps3.
+      destruct (Z.eq_dec k a); [now left|right].
+      destruct (Z_lt_ge_dec k (c_autocap c)); [apply Hun; lia|apply Ha4; lia]. }
+    { intros s0 Hs0. rewrite Hn3, akeys_aset_old by assumption. apply Hkeys. now right. }
+    { unfold c3. cbn [c_autocap c_captop]. pose proof (note_slot_top a c1) as T. unfold c1 in T at 2. cbn [c_captop] in T. lia. }
+    fold c3.
+    split; [assumption|].
+    split; [rewrite I2; unfold c3; cbn [c_capnamelist]; now rewrite Fl|].
+    split; [rewrite I3, Hn3; now apply akeys_aset_old|].
+    split.
+    { intros s0 Hs0. rewrite I4 by (intros X; apply Hs0; now right). rewrite Hn3.
+      apply aget_aset_other. intros ->. apply Hs0. now left. }
+    split.
+    { intros _. destruct names as [|s1 names1].
+      - rewrite (I6 eq_refl). unfold c3 at 1. cbn [c_capnames]. rewrite Fn. cbn [c1 c_capnames]. now rewrite Hn3.
+      - apply I5. discriminate. }
+    split; [discriminate|].
+    exists (a :: ks). split; [|split].
+    + constructor; [|assumption]. rewrite I4 by assumption. rewrite Hn3. apply aget_aset_same.
+    + cbn [chain]. split; [assumption|]. split; [assumption|]. split; [assumption|].
+      apply (chain_ext (c_caps c3)); [|exact I8]. intros n Hn. rewrite Hcaps3. split; [intros [->|X]; [lia|assumption]|now right].
+    + intros k. rewrite I9, Hcaps3. cbn [In]. split; intros H; intuition.
+Qed.
+
+(* the merge loop *)
+Lemma merge_spec : forall js rest ks next m,
+  ssorted js -> (forall j, In j js -> 0 <= j) ->
+  Forall2 (fun s k => aget s m = Some k) rest ks -> ssorted ks -> incl ks js ->
+  Forall (fun s => lexname s = true) rest ->
+  next = match ks with [] => -1 | k :: _ => k end ->
+  exists l m', merge_names js rest next m = Ok (l, m')
+    /\ Forall2 (names_entry false m') l js
+    /\ (forall s, (forall j, In j js -> s <> itoa j) -> aget s m' = aget s m)
+    /\ (forall j r, js = j :: r -> ~ In j ks -> exists l', l = itoa j :: l').
+Proof.
+  induction js as [|j js IH]; intros rest ks next m Hs Hnn HF Hks Hincl Hlex Hnext.
+  - exists [], m. cbn. split; [reflexivity|]. split; [constructor|]. split; [reflexivity|]. intros; discriminate.
+  - assert (Hsf : ssorted js /\ Forall (Z.lt j) js) by (inversion Hs; auto).
+    destruct Hsf as [Hs' Hf].
+    assert (Hj0 : 0 <= j) by (apply Hnn; now left).
+    assert (Hnn' : forall x, In x js -> 0 <= x) by (intros x Hx; apply Hnn; now right).
+    cbn [merge_names].
+    destruct (next =? j) eqn:En.
+    + (* the next name has number j *)
+      apply Z.eqb_eq in En.
+      destruct ks as [|k ks]; [subst next; lia|]. subst next. subst k.
+      inversion HF as [|s ? rest' ? Hg HF']; subst.
+      inversion Hks as [|? ? Hks' Hkf]; subst.
+      inversion Hlex as [|? ? Hl Hlex']; subst.
+      assert (Hincl' : incl ks js).
+      { intros x Hx. destruct (Hincl x (or_intror Hx)) as [->|H]; [|assumption].
+        rewrite Forall_forall in Hkf. specialize (Hkf _ Hx). lia. }
+      set (next' := match rest' with [] => -1 | s' :: _ => aget0 s' m end).
+      assert (Hn' : next' = match ks with [] => -1 | k :: _ => k end).
+      { unfold next'. inversion HF'; subst; [reflexivity|]. now apply aget0_some. }
+      destruct (IH rest' ks next' m Hs' Hnn' HF' Hks' Hincl' Hlex' Hn') as [l [m' [Hm [HF2 [Hkeep _]]]]].
+      rewrite Hm. cbn [bind]. exists (s :: l), m'. split; [reflexivity|]. split.
+      { constructor; [|assumption]. right. split; [now apply lexname_nonempty|].
+        rewrite Hkeep; [assumption|]. intros j' Hj'. apply lexname_not_itoa; [assumption|auto]. }
+      split.
+      { intros x Hx. apply Hkeep. intros j' Hj'. apply Hx. now right. }
+      intros j' r E Hn. injection E as <- <-. exfalso. apply Hn. now left.
+    + (* number j has no name: it is called itoa j *)
+      apply Z.eqb_neq in En.
+      assert (Hnotin : ~ In j ks).
+      { intros Hi. destruct ks as [|k ks]; [destruct Hi|]. subst next.
+        inversion Hks as [|? ? _ Hkf]; subst. destruct Hi as [->|Hi]; [congruence|].
+        rewrite Forall_forall in Hkf. specialize (Hkf _ Hi).
+        destruct (Hincl k (or_introl eq_refl)) as [->|Hk]; [congruence|].
+        rewrite Forall_forall in Hf. specialize (Hf _ Hk). lia. }
+      assert (Hincl' : incl ks js).
+      { intros x Hx. destruct (Hincl x Hx) as [->|H]; [contradiction|assumption]. }
+      assert (HF1 : Forall2 (fun s k => aget s (aset (itoa j) j m) = Some k) rest ks).
+      { clear -HF Hlex Hj0. induction HF as [|s k rest ks Hg HF IHF]; [constructor|].
+        inversion Hlex; subst. constructor; [|auto].
+        rewrite aget_aset_other; [assumption|]. now apply lexname_not_itoa. }
+      destruct (IH rest ks next (aset (itoa j) j m) Hs' Hnn' HF1 Hks Hincl' Hlex Hnext) as [l [m' [Hm [HF2 [Hkeep _]]]]].
+      rewrite Hm. cbn [bind]. exists (itoa j :: l), m'. split; [reflexivity|]. split.
+      { constructor; [|assumption]. right. split; [now apply itoa_nonempty|].
+        rewrite Hkeep; [apply aget_aset_same|].
+        intros j' Hj' E. apply itoa_inj in E; [|assumption|auto]. subst j'.
+        rewrite Forall_forall in Hf. specialize (Hf _ Hj'). lia. }
+      split.
+      { intros x Hx. rewrite Hkeep by (intros j' Hj'; apply Hx; now right).
+        apply aget_aset_other. apply Hx. now left. }
+      intros j' r E _. injection E as <- <-. eexists; reflexivity.
+Qed.
+
+Lemma capcount_le_captop : forall c, capsinv c -> c_capcount c <= c_captop c.
+Proof.
+  intros c Hc. rewrite (ci_count _ Hc). unfold zlen.
+  pose proof (ssorted_length_bound (c_caps c) 0 (c_captop c) (ci_sorted _ Hc) (ci_range _ Hc)).
+  pose proof (ci_range _ Hc _ (ci_zero _ Hc)). lia.
+Qed.
+
+Lemma dense_caps : forall c, capsinv c -> capnumlist_of c = None -> c_caps c = zrange (c_capcount c) /\ c_capcount c = c_captop c.
+Proof.
+  intros c Hc H. unfold capnumlist_of in H. destruct (c_capcount c <? c_captop c) eqn:E; [discriminate|].
+  apply Z.ltb_ge in E. pose proof (capcount_le_captop c Hc) as Hle.
+  assert (Heq : c_capcount c = c_captop c) by lia. split; [|assumption].
+  apply ssorted_dense; [apply Hc| |].
+  - intros k Hk. pose proof (ci_range _ Hc _ Hk). lia.
+  - rewrite (ci_count _ Hc). reflexivity.
+Qed.
+
+Theorem assign_default_wf : forall c t,
+  pinv false c -> Z.max (c_autocap c) (c_captop c) + Z.of_nat (length (c_capnamelist c)) < maxint32 ->
+  assign_default c = Ok t ->
+  wf_tree false t
+  /\ (forall k, In k (t_caps t) -> In k (c_caps c) \/ c_autocap c <= k)
+  /\ (forall k, In k (c_caps c) -> In k (t_caps t))
+  /\ exists ks, chain (c_caps c) (c_autocap c) ks
+       /\ (forall k, In k (t_caps t) <-> In k (c_caps c) \/ In k ks)
+       /\ match t_capnames t with
+          | Some m => Forall2 (fun s k => aget s m = Some k) (c_capnamelist c) ks
+          | None => c_capnamelist c = []
+          end.
+Proof.
+  intros c t Hinv Hb H.
+  pose proof Hinv as [Hci Hauto Hun Hkeys Hnd Hlex Hsome Htopb _].
+  unfold assign_default in H.
+  set (c1 := match c_capnames c with Some _ => assign_names (c_capnamelist c) c | None => c end) in *.
+  destruct (assign_names_spec (c_capnamelist c) c Hci Hauto Hun Hnd) as [A1 [A2 [A3 [A4 [A5 [A6 [ks [A7 [A8 A9]]]]]]]]].
+  { intros s Hs. now rewrite Hkeys. }
+  { assumption. }
+  cbn zeta in *.
+  destruct (chain_sorted _ _ _ A8) as [Hkss Hksb].
+  (* two cases: names or not *)
+  destruct (c_capnames c) as [m0|] eqn:Em0.
+  - (* there are names *)
+    assert (Hne : c_capnamelist c <> []).
+    { intros E. rewrite <- Hkeys in E. unfold names_of in E. rewrite Em0 in E.
+      destruct m0; [exact (Hsome _ eq_refl eq_refl)|discriminate]. }
+    specialize (A5 Hne). subst c1. set (c1 := assign_names (c_capnamelist c) c) in *.
+    rewrite A5 in H.
+    assert (Hjs : match capnumlist_of c1 with Some l => l | None => zrange (c_capcount c1) end = c_caps c1).
+    { destruct (capnumlist_of c1) eqn:E; [unfold capnumlist_of in E; destruct (c_capcount c1 <? c_captop c1); congruence|].
+      symmetry. apply (dense_caps c1 A1 E). }
+    destruct (capnumlist_of c1) as [nl|] eqn:Enl.
+    + (* sparse *)
+      rewrite A2 in H. destruct (c_capnamelist c) as [|s0 rest0] eqn:El; [contradiction|]. cbn [bind] in H.
+      rewrite <- El in *.
+      destruct (merge_spec nl (c_capnamelist c) ks (aget0 s0 (names_of c1)) (names_of c1)) as [l [m' [Hm [HF [Hkeep Hhead]]]]].
+      { rewrite Hjs. apply A1. }
+      { rewrite Hjs. intros j Hj. pose proof (ci_range _ A1 _ Hj). lia. }
+      { assumption. }
+      { assumption. }
+      { rewrite Hjs. intros k Hk. apply A9. now right. }
+      { assumption. }
+      { rewrite El in A7. inversion A7; subst. now apply aget0_some. }
+      rewrite El in Hm at 1. rewrite <- El in Hm. rewrite Hm in H. cbn [bind] in H. injection H as <-.
+      assert (Hcaps0 : exists r, c_caps c1 = 0 :: r).
+      { apply sorted_head_zero; [apply A1|apply A1|]. intros k Hk. pose proof (ci_range _ A1 _ Hk). lia. }
+      split; [|split; [|split]].
+      * constructor; cbn [t_caps t_capnumlist t_captop t_capnames t_caplist].
+        -- apply A1.
+        -- assumption.
+        -- discriminate.
+        -- intros nl' E. injection E as <-. split; [assumption|].
+           unfold capnumlist_of in Enl. destruct (c_capcount c1 <? c_captop c1) eqn:E; [|discriminate].
+           injection Enl as <-. apply Z.ltb_lt in E. rewrite (ci_count _ A1) in E. unfold zlen in *. lia.
+        -- split; [now rewrite <- Hjs|]. split; [discriminate|].
+           destruct Hcaps0 as [r0 Hr0]. apply (Hhead 0 r0); [congruence|].
+           intros Hi. destruct (Hksb _ Hi). lia.
+      * cbn [t_caps t_capnumlist t_captop t_capnames t_caplist]. intros k Hk. apply A9 in Hk. destruct Hk as [Hk|Hk]; [now left|right]. now destruct (Hksb _ Hk).
+      * cbn [t_caps t_capnumlist t_captop t_capnames t_caplist]. intros k Hk. apply A9. now left.
+      * exists ks. split; [assumption|]. split; [cbn [t_caps t_capnumlist t_captop t_capnames t_caplist]; apply A9|]. cbn [t_caps t_capnumlist t_captop t_capnames t_caplist].
+        eapply Forall2_impl; [|exact A7]. cbv beta. intros s k Hg. rewrite Hkeep; [assumption|].
+        intros j Hj. apply lexname_not_itoa.
+        -- apply aget_some_key in Hg. rewrite A3, Hkeys in Hg. rewrite Forall_forall in Hlex. now apply Hlex.
+        -- rewrite Hjs in Hj. pose proof (ci_range _ A1 _ Hj). lia.
+    + (* dense with names *)
+      rewrite A2 in H. destruct (c_capnamelist c) as [|s0 rest0] eqn:El; [contradiction|]. cbn [bind] in H.
+      rewrite <- El in *.
+      destruct (merge_spec (zrange (c_capcount c1)) (c_capnamelist c) ks (aget0 s0 (names_of c1)) (names_of c1)) as [l [m' [Hm [HF [Hkeep Hhead]]]]].
+      { rewrite Hjs. apply A1. }
+      { rewrite Hjs. intros j Hj. pose proof (ci_range _ A1 _ Hj). lia. }
+      { assumption. }
+      { assumption. }
+      { rewrite Hjs. intros k Hk. apply A9. now right. }
+      { assumption. }
+      { rewrite El in A7. inversion A7; subst. now apply aget0_some. }
+      rewrite El in Hm at 1. rewrite <- El in Hm. rewrite Hm in H. cbn [bind] in H. injection H as <-.
+      assert (Hcaps0 : exists r, c_caps c1 = 0 :: r).
+      { apply sorted_head_zero; [apply A1|apply A1|]. intros k Hk. pose proof (ci_range _ A1 _ Hk). lia. }
+      destruct (dense_caps c1 A1 Enl) as [Hd1 Hd2].
+      split; [|split; [|split]].
+      * constructor; cbn [t_caps t_capnumlist t_captop t_capnames t_caplist].
+        -- apply A1.
+        -- assumption.
+        -- intros _. now rewrite Hd1, Hd2.
+        -- discriminate.
+        -- split; [now rewrite <- Hjs|]. split; [discriminate|].
+           destruct Hcaps0 as [r0 Hr0]. apply (Hhead 0 r0); [congruence|].
+           intros Hi. destruct (Hksb _ Hi). lia.
+      * cbn [t_caps t_capnumlist t_captop t_capnames t_caplist]. intros k Hk. apply A9 in Hk. destruct Hk as [Hk|Hk]; [now left|right]. now destruct (Hksb _ Hk).
+      * cbn [t_caps t_capnumlist t_captop t_capnames t_caplist]. intros k Hk. apply A9. now left.
+      * exists ks. split; [assumption|]. split; [cbn [t_caps t_capnumlist t_captop t_capnames t_caplist]; apply A9|]. cbn [t_caps t_capnumlist t_captop t_capnames t_caplist].
+        eapply Forall2_impl; [|exact A7]. cbv beta. intros s k Hg. rewrite Hkeep; [assumption|].
+        intros j Hj. apply lexname_not_itoa.
+        -- apply aget_some_key in Hg. rewrite A3, Hkeys in Hg. rewrite Forall_forall in Hlex. now apply Hlex.
+        -- rewrite Hjs in Hj. pose proof (ci_range _ A1 _ Hj). lia.
+  - (* no names *)
+    subst c1.
+    assert (Hl : c_capnamelist c = []).
+    { rewrite <- Hkeys. unfold names_of. now rewrite Em0. }
+    rewrite Hl in A7. inversion A7; subst ks.
+    rewrite Em0 in H.
+    assert (Hcaps0 : exists r, c_caps c = 0 :: r).
+    { apply sorted_head_zero; [apply Hci|apply Hci|]. intros k Hk. pose proof (ci_range _ Hci _ Hk). lia. }
+    destruct (capnumlist_of c) as [nl|] eqn:Enl.
+    + (* sparse, no names: every number is called by its decimal numeral *)
+      assert (Hnl : nl = c_caps c).
+      { unfold capnumlist_of in Enl. destruct (c_capcount c <? c_captop c); congruence. }
+      cbn [bind] in H.
+      destruct (merge_spec nl [] [] (-1) []) as [l [m' [Hm [HF [Hkeep Hhead]]]]].
+      { rewrite Hnl. apply Hci. }
+      { rewrite Hnl. intros j Hj. pose proof (ci_range _ Hci _ Hj). lia. }
+      { constructor. }
+      { constructor. }
+      { intros x []. }
+      { constructor. }
+      { reflexivity. }
+      rewrite Hm in H. cbn [bind] in H. injection H as <-.
+      split; [|split; [|split]].
+      * constructor; cbn [t_caps t_capnumlist t_captop t_capnames t_caplist].
+        -- apply Hci.
+        -- assumption.
+        -- discriminate.
+        -- intros nl' E. injection E as <-. split; [assumption|].
+           unfold capnumlist_of in Enl. destruct (c_capcount c <? c_captop c) eqn:E; [|discriminate].
+           injection Enl as <-. apply Z.ltb_lt in E. rewrite (ci_count _ Hci) in E. unfold zlen in *. lia.
+        -- split; [now rewrite <- Hnl|]. split; [discriminate|].
+           destruct Hcaps0 as [r0 Hr0]. apply (Hhead 0 r0); [congruence|intros []].
+      * cbn [t_caps t_capnumlist t_captop t_capnames t_caplist]. auto.
+      * cbn [t_caps t_capnumlist t_captop t_capnames t_caplist]. auto.
+      * exists []. split; [exact I|]. split; [cbn [t_caps t_capnumlist t_captop t_capnames t_caplist]; intros k; split; [auto|intros [Hx|[]]; exact Hx]|]. cbn [t_caps t_capnumlist t_captop t_capnames t_caplist]. rewrite Hl. constructor.
+    + injection H as <-.
+      destruct (dense_caps c Hci Enl) as [Hd1 Hd2].
+      split; [|split; [|split]].
+      * constructor; cbn [t_caps t_capnumlist t_captop t_capnames t_caplist]; auto.
+        -- apply Hci.
+        -- intros _. now rewrite Hd1, Hd2.
+        -- discriminate.
+      * cbn [t_caps t_capnumlist t_captop t_capnames t_caplist]. auto.
+      * cbn [t_caps t_capnumlist t_captop t_capnames t_caplist]. auto.
+      * exists []. split; [exact I|]. split; [cbn [t_caps t_capnumlist t_captop t_capnames t_caplist]; intros k; split; [auto|intros [Hx|[]]; exact Hx]|]. cbn [t_caps t_capnumlist t_captop t_capnames t_caplist]. assumption.
+Qed.
+
+End WithLim.
